@@ -65,6 +65,14 @@ def given_cases(seed, count):
             x = (x + 1) // 2
             y = (y + 2) // 3
         out.append({'x': [int(v) for v in x], 'y': [int(v) for v in y]})
+    # nearly monotone columns: the identity with one to three neighbouring exchanges, both directions (|tau| from 0.97 to 0.997)
+    for n, swaps in ((16, 1), (20, 1), (22, 1), (25, 1), (30, 2), (35, 1), (40, 3), (50, 4)):
+        y = list(range(1, n + 1))
+        for k in range(swaps):
+            a = 2 + 3 * k + int(rs.randint(2))
+            y[a], y[a + 1] = y[a + 1], y[a]
+        out.append({'x': list(range(1, n + 1)), 'y': y})
+        out.append({'x': list(range(1, n + 1)), 'y': y[::-1]})
     # constant columns of several lengths (the values come from pseudo_obs: 0.175, 0.5, 0.275, 1/16 ...)
     for n in (3, 5, 6, 7, 10, 12, 20, 33):
         for c in (1, 2, 3):
@@ -216,6 +224,9 @@ def _bucket(case):
     if s * s == d1 * d2:
         return 'tau=+1' if s > 0 else 'tau=-1'
     ties = 'ties' if (d1 != case['n0'] or d2 != case['n0']) else 'noties'
+    if abs(s) / math.sqrt(d1 * d2) > 0.9943:
+        # beyond |tau| = 0.99438 Frank's parameter would exceed log(max float) = 709.78, the bound of the library's solver (finding F34)
+        return ('tau>0' if s > 0 else 'tau<0') + ',saturation(|tau|>0.9943)'
     return ('tau>0' if s > 0 else 'tau<0') + ',' + ties
 
 
